@@ -254,6 +254,10 @@ pub struct World {
     pub frame_lens: Vec<usize>,
     /// (schema version used, metadata included) of the most recent built-in Rows answer.
     pub last_rows_answer: Option<(u32, bool)>,
+    /// Complete reads of system.peers by the client: (arrival of the first page
+    /// request, time the last page was answered).
+    pub peers_fetches: Vec<(u64, u64)>,
+    pub peers_fetch_started: BTreeMap<ConnId, u64>,
 }
 
 static WORLD: Mutex<Option<World>> = Mutex::new(None);
@@ -302,6 +306,8 @@ pub fn install(cluster: Cluster, net: NetCfg, trace: bool) {
         mutation_fired: None,
         frame_lens: Vec::new(),
         last_rows_answer: None,
+        peers_fetches: Vec::new(),
+        peers_fetch_started: BTreeMap::new(),
     };
     *WORLD.lock().unwrap() = Some(w);
 }
